@@ -446,6 +446,7 @@ func checkResponses(c *Ctx, r *Report, ver, pkgRel, gcs string, respT, opT *type
 	viol := ""
 	var sites []string
 	nSucc, nErr := 0, 0
+	var succSet, errSet ssa.Instruction
 	allInstrs(fi.SSA, false, func(_ *ssa.Function, _ *ssa.BasicBlock, _ int, ins ssa.Instruction) {
 		cl, ok := ins.(ssa.CallInstruction)
 		if !ok {
@@ -465,11 +466,13 @@ func checkResponses(c *Ctx, r *Report, ver, pkgRel, gcs string, respT, opT *type
 		switch {
 		case val.Calls[pkgRel+".createResponseSuccess"]:
 			nSucc++
+			succSet = ins
 			if !key.hasFieldNamed("ResponseSuccessCode") {
 				viol = fmt.Sprintf("%s: the success response is not keyed by route.ResponseSuccessCode", w.pos(cl.Pos()))
 			}
 		case val.Calls[pkgRel+".createErrorResponse"]:
 			nErr++
+			errSet = ins
 			if !key.hasFieldNamed("HttpStatusCode") || !key.hasFieldNamed("ErrorResponses") {
 				viol = fmt.Sprintf("%s: an error response is not keyed by its own HttpStatusCode", w.pos(cl.Pos()))
 			}
@@ -482,6 +485,18 @@ func checkResponses(c *Ctx, r *Report, ver, pkgRel, gcs string, respT, opT *type
 	}
 	o := r.add("C06.e", "fieldflow", gcs+":responses", ver+": responses = {success code -> success response} ∪ {each @ErrorResponse code -> error response}", []string{gcs}, sites, viol)
 	o.NonTrivial = true
+	// registrations are keyed by status code and overwrite: the success response goes in last,
+	// so when an @ErrorResponse repeats the success code the success response is what is
+	// documented - in both dialects
+	if succSet != nil && errSet != nil {
+		v := ""
+		if before, decided := w.takesEffectBefore(fi, succSet, errSet); !decided {
+			v = "cannot order the success and error response registrations"
+		} else if before {
+			v = fmt.Sprintf("%s: the success response is registered before the error responses: an @ErrorResponse with the success status code now replaces it (and the other dialect keeps the old order)", w.pos(succSet.Pos()))
+		}
+		r.add("C06.e", "no-reorder", gcs+":success-registered-last", ver+": on a status-code collision the success response wins (registered after the error responses)", []string{gcs}, []string{w.pos(succSet.Pos()), w.pos(errSet.Pos())}, v)
+	}
 	ruleEach(c, r, "C06.e", gcs,
 		func(fi *FuncInfo) func(ast.Expr) bool {
 			return w.rangeOverField(fi, "definitions.RouteMetadata.ErrorResponses")
@@ -806,4 +821,27 @@ func checkRequiredness(c *Ctx, r *Report, clause string) {
 		}
 		r.add(clause, "mustcall", fi.Key+"->"+ap, "every parameter's validator passes through the implicit-required rule", []string{fi.Key}, sites, viol)
 	}
+}
+
+// responseSetSites: where generateControllerSpec (or a new function it uses) registers the
+// success response and the error responses.
+func (w *World) responseSetSites(fi *FuncInfo, pkgRel string) (succ, errs ssa.Instruction) {
+	allInstrs(fi.SSA, false, func(_ *ssa.Function, _ *ssa.BasicBlock, _ int, ins ssa.Instruction) {
+		cl, ok := ins.(ssa.CallInstruction)
+		if !ok {
+			return
+		}
+		cn := calleeName(cl)
+		if !(strings.HasSuffix(cn, "openapi3.Responses).Set") || (strings.Contains(cn, "OrderedMap[") && strings.HasSuffix(cn, ").Set") && strings.Contains(cl.Common().Args[0].Type().String(), "v3.Response]"))) {
+			return
+		}
+		val := sliceOf(cl.Common().Args[2])
+		switch {
+		case val.Calls[pkgRel+".createResponseSuccess"]:
+			succ = ins
+		case val.Calls[pkgRel+".createErrorResponse"]:
+			errs = ins
+		}
+	})
+	return
 }
